@@ -61,6 +61,90 @@ fn find_persisted(v: &Val, out: &mut Vec<String>) {
     }
 }
 
+/// One persisted build against the plain build of the same project.
+fn check_persisted(plain_texts: &BTreeMap<String, String>, arts: &[(String, String)], algo: &str, file: Option<&str>, ids_checked: &mut u64, fails: &mut Vec<(String, String)>) {
+    let fname = file.unwrap_or("persisted_documents.json");
+    let Some((_, docs_src)) = arts.iter().find(|(p, _)| p == fname) else {
+        fails.push(("no-documents-file".to_string(), format!("no {fname} among the artifacts")));
+        return;
+    };
+    let docs: BTreeMap<String, String> = match serde_json::from_str(docs_src) {
+        Ok(d) => d,
+        Err(e) => {
+            fails.push(("documents-file-shape".to_string(), format!("{fname} is not a JSON object of strings: {e}")));
+            return;
+        }
+    };
+    let mut referenced = BTreeSet::new();
+    let mut paths_with_ids = BTreeSet::new();
+    for (path, src) in arts {
+        if !path.ends_with(".ts") {
+            continue;
+        }
+        let Ok(f) = tsx::load(src) else { continue };
+        let mut ids = vec![];
+        for v in f.consts.values().chain(f.default_export.iter()) {
+            find_persisted(v, &mut ids);
+        }
+        ids.sort();
+        ids.dedup();
+        for id in ids {
+            paths_with_ids.insert(path.clone());
+            *ids_checked += 1;
+            referenced.insert(id.clone());
+            let Some(text) = docs.get(&id) else {
+                fails.push(("id-not-in-file".to_string(), format!("{path} sends operation id {id}, which {fname} does not record")));
+                continue;
+            };
+            let want = if algo == "md5" { hex::encode(Md5::digest(text.as_bytes())) } else { hex::encode(Sha256::digest(text.as_bytes())) };
+            if want != id {
+                fails.push(("id-is-not-hash".to_string(), format!("{path}: id {id} is not the {algo} of the recorded document ({want})")));
+            }
+            match plain_texts.get(path) {
+                None => fails.push(("no-plain-counterpart".to_string(), format!("{path} has a persisted operation but the plain build has no query text for it"))),
+                Some(pt) => {
+                    if tokens(pt) != tokens(text) {
+                        fails.push(("document-differs".to_string(), format!("{path}: recorded document {text:?} is not the operation of the plain build {pt:?}")));
+                    }
+                }
+            }
+        }
+    }
+    let keys: BTreeSet<String> = docs.keys().cloned().collect();
+    if keys != referenced {
+        fails.push(("file-keys".to_string(), format!("{fname} records {:?} but the artifacts reference {:?}", keys.difference(&referenced).collect::<Vec<_>>(), referenced.difference(&keys).collect::<Vec<_>>())));
+    }
+    for path in plain_texts.keys() {
+        if !paths_with_ids.contains(path) {
+            fails.push(("operation-not-persisted".to_string(), format!("{path} carries an operation in the plain build but no persisted operation id in the persisted build")));
+        }
+    }
+}
+
+fn plain_texts_of(plain: &[(String, String)]) -> BTreeMap<String, String> {
+    operation_texts(plain)
+        .into_iter()
+        .filter_map(|(p, t)| t.ok().map(|t| (if p.ends_with("/query_text.ts") { p.replace("/query_text.ts", "/entrypoint.ts") } else { p.replace("__refetch__query_text__", "__refetch__") }, t)))
+        .collect()
+}
+
+/// the demo projects: plain build vs md5 / sha256 persisted builds
+fn demo_check(d: &crate::demos::Demo) -> Vec<(String, String)> {
+    let plain_texts = plain_texts_of(&d.arts);
+    let mut fails = vec![];
+    let mut n = 0;
+    for algo in ["md5", "sha256"] {
+        for extra in [false, true] {
+            let p = crate::demos::compile(&d.name, Some(json!({"persisted_documents": {"algorithm": algo, "include_extra_info": extra}})));
+            check_persisted(&plain_texts, &p.arts, algo, None, &mut n, &mut fails);
+        }
+    }
+    if n == 0 {
+        machinery_error(&format!("demo {}: no operation id found", d.name));
+    }
+    fails
+}
+
 fn oracle(ctx: &Ctx<'_>, stats: &mut ShardStats) -> Vec<(String, String)> {
     let Compiled::Ok(plain) = ctx.result else { return vec![] };
     // cooked query texts of the non-persisted build, by the artifact that would carry the operation
@@ -92,62 +176,9 @@ fn oracle(ctx: &Ctx<'_>, stats: &mut ShardStats) -> Vec<(String, String)> {
                         continue;
                     }
                 };
-                let fname = file.unwrap_or("persisted_documents.json");
-                let Some((_, docs_src)) = arts.iter().find(|(p, _)| p == fname) else {
-                    fails.push(("no-documents-file".to_string(), format!("no {fname} among the artifacts")));
-                    continue;
-                };
-                let docs: BTreeMap<String, String> = match serde_json::from_str(docs_src) {
-                    Ok(d) => d,
-                    Err(e) => {
-                        fails.push(("documents-file-shape".to_string(), format!("{fname} is not a JSON object of strings: {e}")));
-                        continue;
-                    }
-                };
-                let mut referenced = BTreeSet::new();
-                let mut paths_with_ids = BTreeSet::new();
-                for (path, src) in &arts {
-                    if !path.ends_with(".ts") {
-                        continue;
-                    }
-                    let Ok(f) = tsx::load(src) else { continue };
-                    let mut ids = vec![];
-                    for v in f.consts.values().chain(f.default_export.iter()) {
-                        find_persisted(v, &mut ids);
-                    }
-                    ids.sort();
-                    ids.dedup();
-                    for id in ids {
-                        paths_with_ids.insert(path.clone());
-                        *stats.extra.entry("operation_ids_checked".into()).or_default() += 1;
-                        referenced.insert(id.clone());
-                        let Some(text) = docs.get(&id) else {
-                            fails.push(("id-not-in-file".to_string(), format!("{path} sends operation id {id}, which {fname} does not record")));
-                            continue;
-                        };
-                        let want = if algo == "md5" { hex::encode(Md5::digest(text.as_bytes())) } else { hex::encode(Sha256::digest(text.as_bytes())) };
-                        if want != id {
-                            fails.push(("id-is-not-hash".to_string(), format!("{path}: id {id} is not the {algo} of the recorded document ({want})")));
-                        }
-                        match plain_texts.get(path) {
-                            None => fails.push(("no-plain-counterpart".to_string(), format!("{path} has a persisted operation but the plain build has no query text for it"))),
-                            Some(pt) => {
-                                if tokens(pt) != tokens(text) {
-                                    fails.push(("document-differs".to_string(), format!("{path}: recorded document {text:?} is not the operation of the plain build {pt:?}")));
-                                }
-                            }
-                        }
-                    }
-                }
-                let keys: BTreeSet<String> = docs.keys().cloned().collect();
-                if keys != referenced {
-                    fails.push(("file-keys".to_string(), format!("{fname} records {:?} but the artifacts reference {:?}", keys.difference(&referenced).collect::<Vec<_>>(), referenced.difference(&keys).collect::<Vec<_>>())));
-                }
-                for path in plain_texts.keys() {
-                    if !paths_with_ids.contains(path) {
-                        fails.push(("operation-not-persisted".to_string(), format!("{path} carries an operation in the plain build but no persisted operation id in the persisted build")));
-                    }
-                }
+                let mut ids_checked = 0;
+                check_persisted(&plain_texts, &arts, algo, file, &mut ids_checked, &mut fails);
+                *stats.extra.entry("operation_ids_checked".into()).or_default() += ids_checked;
                 if fails.len() > 3 {
                     return fails;
                 }
@@ -162,6 +193,9 @@ pub fn main(args: &Args) -> i32 {
         sweep::worker(sh, oracle);
         return 0;
     }
+    if let Some(code) = crate::demos::replay_if_demo(args, &demo_check) {
+        return code;
+    }
     if args.replay.is_some() {
         return sweep::replay(args);
     }
@@ -172,10 +206,15 @@ pub fn main(args: &Args) -> i32 {
     for v in res.violations {
         verdict.add(v);
     }
+    let (demo_violations, demo_artifacts) = crate::demos::violations(&demo_check);
+    for v in demo_violations {
+        verdict.add(v);
+    }
     verdict.violations.sort_by_key(|v| v.what.len());
     let (code, n_new, known) = verdict.conclude("comp_mc/c26");
     ev.violations = n_new as i64;
     let ids = res.stats.extra.get("operation_ids_checked").copied().unwrap_or(0);
+    ev.set("demo_projects", json!(crate::demos::DEMOS)).set("demo_artifacts", demo_artifacts);
     ev.set("evaluations", res.stats.extra.get("configurations").copied().unwrap_or(0))
         .set("distinct_nontrivial", res.stats.accepted)
         .set("rule", "every accepted program of the stated families x {md5, sha256} x {extra info off/on} x {default, custom file name}: every operationId found in any artifact must be a key of the documents file, equal the configured hash of the recorded text, and the recorded text must tokenise (whitespace and commas insignificant) to the plain build's operation; file keys = referenced ids")
